@@ -418,6 +418,23 @@ def r7_register_keeps_tables(ck, cx, rule='R7'):
         ck.saw('functions', f.qn)
         for p in cx.enum(f, d, max_depth=0):
             annotate(p, heap=False)
+            # ... and it DOES add its entry: on every path on which the class has a sub-function code, one entry of the inner table
+            # is written (a whole-table write under `not in`, or setdefault(code, {sub: cls}), adds it only when the code had no table)
+            has_sub = any(c.kind == 'cond' and 'sub_function_code' in U(getattr(c, '_sub', None) or c.node) and c.a is True for c in p.ev)
+            if has_sub and not (p.exit and isinstance(p.exit, tuple) and p.exit[0] == 'exc'):
+                inner = False
+                for ev in p.ev:
+                    tg = (getattr(ev, '_subt', None) or ev.a) if ev.kind == 'assign' else None
+                    if isinstance(tg, ast.Subscript) and isinstance(tg.value, (ast.Subscript, ast.Call)) and '__sub_lookup' in U(tg.value):
+                        inner = True
+                    cl = (getattr(ev, '_sub', None) if isinstance(getattr(ev, '_sub', None), ast.Call) else ev.node) if ev.kind == 'call' else None
+                    if cl is not None and isinstance(cl.func, ast.Attribute) and cl.func.attr in ('update', '__setitem__') and isinstance(cl.func.value, (ast.Subscript, ast.Call)) \
+                            and '__sub_lookup' in U(cl.func.value):
+                        inner = True
+                n += 1
+                ck.ob(rule, f.qn, 'register() writes the (function code, sub-function code) entry on every path', inner, detail='register-does-not-add-entry', loc=cx.floc(f),
+                      message='%s.register has a path on which a class with a sub-function code is not entered in the sub-function table of its function code (it is '
+                              'added only when that code had no table yet): frames of that sub-function are then delivered as another class' % dn)
             for i, ev in enumerate(p.ev):
                 whole = None      # (key text, value node) of a depth-1 write into the sub-function table
                 # targets and receivers are looked at with locals replaced by what they stand for (`tables = self.__sub_lookup`)
